@@ -24,7 +24,7 @@ CONSTANTS
   Ops <- mcOps
   Setup <- mcSetup
   ProjOfName <- mcProjOfName
-  Depth = 9
+  Depth = 11
   AttBound = 100
   ViewKeep = {}
   RealBackoff = FALSE
